@@ -3,6 +3,7 @@ package main
 import (
 	"encoding/binary"
 	"fmt"
+	"math"
 	"strings"
 )
 
@@ -314,6 +315,47 @@ func runC01(r *Runner, g *Gen, tier string) string {
 			v = g.Value(t, &b)
 		}
 		r.Do(codecOp("rt", cfg, t, "", v.Sexp()), nontrivialVal(t, v), "rt")
+	}
+	// map keys outside the proved fragment (`keySafe`): floats, times, structs containing them, null values.
+	// Keys are distinct, finite and non-zero (±0 are one Go key, NaN is none), times are UTC instants.
+	for i := 0; i < scale(tier, 200, 15000); i++ {
+		cfg := g.pickCfg()
+		var kt *TyDef
+		mk := func(j int) *Val { return nil }
+		f64 := func(j int) *Val { return &Val{K: "f64", U: math.Float64bits(float64(j+1)*1.5 - 3.25)} }
+		tm := func(j int) *Val { return &Val{K: "T", Sec: int64(j)*86400*365 - 5, Nsec: int64(j) * 999999999 / 7} }
+		switch g.r.Intn(5) {
+		case 0:
+			kt, mk = B("f64"), f64
+		case 1:
+			kt, mk = B("f32"), func(j int) *Val { return &Val{K: "f32", U: uint64(math.Float32bits(float32(j+1) * 0.75))} }
+		case 2:
+			kt, mk = &TyDef{K: "time"}, tm
+		case 3:
+			kt = Struct(F("F", "1", B("f64")), F("S", "2", B("str")), F("T", "3", &TyDef{K: "time"}))
+			mk = func(j int) *Val {
+				return &Val{K: "r", L: []*Val{f64(j), {K: "s", Data: []byte{byte('a' + j%3)}}, tm(j / 2)}}
+			}
+		default:
+			kt, mk = named("MyF64"), f64
+		}
+		vt := g.valueType(0)
+		for vt.under().K == "map" {
+			vt = B("str")
+		}
+		m := &Val{K: "m"}
+		for j, n := 0, g.r.Intn(4); j < n; j++ {
+			b := 8
+			m.M = append(m.M, [2]*Val{mk(j), g.Value(vt, &b)})
+		}
+		t := Struct(F("M", "1", Map(kt, vt)), F("X", "2", B("int")))
+		if g.r.P(30) && !g.proto {
+			t = Struct(&FieldDef{Name: "M", Exported: true, Plenc: "3,proto", T: Map(kt, vt)})
+		}
+		if knownShape(cfg, Struct(F("V", "1", vt)), false) {
+			continue
+		}
+		r.Do(codecOp("rt", cfg, t, "", (&Val{K: "r", L: append([]*Val{m}, zeroVal(t).L[1:]...)}).Sexp()), len(m.M) > 0, "rt.wide-keys")
 	}
 	// a long history through one interned field: more distinct strings than any table limit one might pick
 	for _, n := range []int{257, scale(tier, 10000, 20000)} {
